@@ -112,6 +112,11 @@ def aroot (w : Wiring) : Option AObj :=
   | Option.none => Option.none
   | some cd => some ⟨cd.name, .const "Font", arunInit cd (fontKw.map fun kr => (kr.1, AVal.param kr.2))⟩
 
+def areachFrom (w : Wiring) : Option AObj → List Site → Option AObj
+  | o, [] => o
+  | Option.none, _ => Option.none
+  | some o, s :: r => areachFrom w (astep w o s) r
+
 def interpObj (cfg : Cfg) (o : AObj) : Obj :=
   ⟨o.cd, (interp cfg o.self).getD (.builtin o.cd), o.slots.map fun p => (p.1, interp cfg p.2)⟩
 
@@ -316,7 +321,7 @@ def pathsOk (w : Wiring) (objs : List AObj) : Bool :=
         | some (.guard _) => true
         | some .scratch => s.cls == .sameClass
         | Option.none => false) &&
-      (match chain.foldl (fun (o : Option AObj) s => o.bind fun o => astep w o s) (aroot w) with
+      (match areachFrom w (aroot w) chain with
         | some o => o.cd == s.owner && objs.contains o
         | Option.none => false)
     | _, _ => false
